@@ -358,7 +358,43 @@ type ApplyEvent struct {
 	Payload     uint64
 }
 
+// parkGate blocks until the gate is opened (closed channel); counts as parked for the quiescence detector.
+func parkGate(ch chan struct{}) { <-ch }
+
+// Gates make the user state machine slow on demand: a call of the named method blocks at its very
+// beginning (before it reads or changes any state) until Open is called.
+type Gates struct {
+	mu sync.Mutex
+	ch map[string]chan struct{}
+}
+
+func (g *Gates) Close(method string) {
+	g.mu.Lock()
+	defer g.mu.Unlock()
+	if g.ch == nil {
+		g.ch = map[string]chan struct{}{}
+	}
+	g.ch[method] = make(chan struct{})
+}
+func (g *Gates) Open(method string) {
+	g.mu.Lock()
+	defer g.mu.Unlock()
+	if c, ok := g.ch[method]; ok {
+		close(c)
+		delete(g.ch, method)
+	}
+}
+func (g *Gates) pass(method string) {
+	g.mu.Lock()
+	c := g.ch[method]
+	g.mu.Unlock()
+	if c != nil {
+		parkGate(c)
+	}
+}
+
 type FSM struct {
+	Gates
 	mu       sync.Mutex
 	Ops      []uint64
 	Applies  []ApplyEvent // since the last restore
@@ -377,6 +413,9 @@ func PayloadOf(b []byte) uint64 {
 }
 
 func (f *FSM) Apply(op *raft.Operation) interface{} {
+	if op.OperationType == raft.Replicated {
+		f.pass("Apply")
+	}
 	f.mu.Lock()
 	defer f.mu.Unlock()
 	if op.OperationType != raft.Replicated {
@@ -390,6 +429,7 @@ func (f *FSM) Apply(op *raft.Operation) interface{} {
 
 // snapshot format: 4 bytes big-endian count, then 4 bytes per applied payload, then Pad zero bytes
 func (f *FSM) Snapshot(w io.Writer) error {
+	f.pass("Snapshot")
 	f.mu.Lock()
 	defer f.mu.Unlock()
 	var buf bytes.Buffer
@@ -406,6 +446,7 @@ func (f *FSM) Snapshot(w io.Writer) error {
 }
 
 func (f *FSM) Restore(r io.Reader) error {
+	f.pass("Restore")
 	b, err := io.ReadAll(r)
 	if err != nil {
 		return err
